@@ -647,8 +647,95 @@ Proof.
   pose proof (unix_loop_in_bounds skipws buf arr AO (unix_indices (lenN arr)) (unix_indices_range arr)) as NB.
   destruct (unix_loop skipws buf arr (unix_indices (lenN arr))) as [st|]; [|congruence]. cbn [bind].
   destruct st; try discriminate.
-  - pose proof (dos_try_in_bounds arr) as ND. destruct (dos_try arr) as [d|]; [|congruence]. cbn [bind].
+  - pose proof (dos_try_in_bounds buf arr AO) as ND. destruct (dos_try arr) as [d|]; [|congruence]. cbn [bind].
     destruct d; [discriminate|apply eplf_try_in_bounds].
-  - pose proof (dos_try_in_bounds arr) as ND. destruct (dos_try arr) as [d|]; [|congruence]. cbn [bind].
+  - pose proof (dos_try_in_bounds buf arr AO) as ND. destruct (dos_try arr) as [d|]; [|congruence]. cbn [bind].
     destruct d; [discriminate|apply eplf_try_in_bounds].
+Qed.
+
+(* ================================================================== *)
+(* Unix format: the name (and link target) is the tail of the line     *)
+(* ================================================================== *)
+Lemma starts_with_split l p : starts_with l p = true -> exists rest, l = p ++ rest.
+Proof.
+  revert l; induction p as [|y p IH]; intros l H; cbn [starts_with] in H.
+  - exists l. reflexivity.
+  - destruct l as [|x l]; [discriminate|]. apply andb_true_iff in H as [E H]. apply N.eqb_eq in E; subst y.
+    destruct (IH l H) as (rest & ->). exists rest. reflexivity.
+Qed.
+
+Lemma strstr_split h p k : strstr h p = Some k -> exists pre rest, h = pre ++ p ++ rest /\ lenN pre = k.
+Proof.
+  revert k; induction h as [|x h IH]; intros k; cbn [strstr].
+  - destruct (starts_with [] p) eqn:E; [|discriminate]. intros H; inversion H; subst k.
+    destruct (starts_with_split _ _ E) as (rest & R). exists [], rest. split; [exact R|reflexivity].
+  - destruct (starts_with (x :: h) p) eqn:E.
+    + intros H; inversion H; subst k. destruct (starts_with_split _ _ E) as (rest & R).
+      exists [], rest. split; [exact R|reflexivity].
+    + destruct (strstr h p) as [j|] eqn:S; cbn [option_map]; [|discriminate].
+      intros H; inversion H; subst k. destruct (IH j eq_refl) as (pre & rest & R & L).
+      exists (x :: pre), rest. cbn [app lenN]. split; [f_equal; exact R|lia].
+Qed.
+
+Theorem unix_name_is_line_tail skipws buf arr i p :
+  unix_body skipws buf arr i = Val (Found p) ->
+  exists pre, buf = pre ++ p_name p ++ match p_link p with Some l => arrow ++ l | None => [] end.
+Proof.
+  unfold unix_body.
+  destruct (tok_get arr (i - 1)%Z) as [sz|]; cbn [bind]; [|discriminate].
+  destruct (tok_get arr i) as [mo|]; cbn [bind]; [|discriminate].
+  destruct (tok_get arr (i + 1)%Z) as [dy|]; cbn [bind]; [|discriminate].
+  destruct (tok_get arr (i + 2)%Z) as [yr|]; cbn [bind]; [|discriminate].
+  destruct (negb (is_month (t_tok mo))); [discriminate|].
+  destruct (negb (re_integer (t_tok sz))); [discriminate|].
+  destruct (negb (re_integer (t_tok dy))); [discriminate|].
+  destruct (negb (re_time (t_tok yr))); [discriminate|].
+  destruct (cstr_at buf (t_pos mo)) as [from|]; cbn [bind]; [|discriminate].
+  rewrite !snprintf_ok. cbn [bind].
+  match goal with |- (if ?c then _ else _) = _ -> _ => destruct c end; [|discriminate].
+  destruct (tok_get arr 0) as [t0|]; cbn [bind]; [|discriminate].
+  unfold cstr_at. set (off := t_pos yr + lenN (t_tok yr)).
+  destruct (off <=? lenN buf); cbn [bind]; [|discriminate].
+  set (after := dropN off buf).
+  set (name0 := if skipws then snd (span is_wsp after)
+                else match after with c :: r => if is_wsp c then r else after | [] => after end).
+  assert (N0 : exists q, buf = q ++ name0).
+  { assert (A : buf = takeN off buf ++ after) by (symmetry; apply takeN_dropN).
+    subst name0. destruct skipws.
+    - exists (takeN off buf ++ fst (span is_wsp after)). rewrite <- app_assoc, span_app. exact A.
+    - destruct after as [|c r] eqn:EA; [exists (takeN off buf); exact A|].
+      destruct (is_wsp c); [|exists (takeN off buf); exact A].
+      exists (takeN off buf ++ [c]). rewrite <- app_assoc. exact A. }
+  destruct N0 as (q & Q).
+  destruct (head0 (t_tok t0) =? 108).
+  - destruct (strstr name0 arrow) as [k|] eqn:S.
+    + intros H; inversion H; subst p; clear H. cbn [p_name p_link].
+      destruct (strstr_split _ _ _ S) as (pre & rest & R & L).
+      exists q. rewrite Q at 1. f_equal. rewrite R at 1.
+      assert (T : takeN k name0 = pre) by (rewrite R, <- L; apply takeN_app_exact).
+      assert (D : dropN (k + 4) name0 = rest).
+      { rewrite R, app_assoc. replace (k + 4) with (lenN (pre ++ arrow)) by (rewrite lenN_app, L; reflexivity).
+        apply dropN_app_exact. }
+      rewrite T, D. reflexivity.
+    + intros H; inversion H; subst p; clear H. cbn [p_name p_link]. exists q. rewrite app_nil_r. exact Q.
+  - intros H; inversion H; subst p; clear H. cbn [p_name p_link]. exists q. rewrite app_nil_r. exact Q.
+Qed.
+
+(* ================================================================== *)
+(* source-level facts regenerated from the program text                *)
+(* ================================================================== *)
+Lemma handlers_guarded :
+  port_handler_guarded = true /\ eprt_handler_guarded = true /\
+  tbuf_writes_are_sized_snprintf = true /\ 0 < tbuf_size /\ max_tokens <= tokens_capacity.
+Proof. vm_compute. repeat split; discriminate. Qed.
+
+Lemma parse_proto_nonempty ipf sanity buf : buf <> [] -> parse_proto_ip_port ipf sanity buf <> EPrecondition.
+Proof.
+  destruct buf as [|d s]; [congruence|]. intros _. unfold parse_proto_ip_port.
+  destruct (strtol10 s) as [pl e].
+  destruct (negb ((wrap32 pl =? 1)%Z || (wrap32 pl =? 2)%Z) || negb (head0 e =? d)); [discriminate|].
+  destruct (find_first (fun c => c =? d) (dropN 1 e)) as [k|]; [|discriminate].
+  destruct (max_ipstrlen <=? k); [discriminate|].
+  destruct (is_any _); [discriminate|]. destruct (negb _); [discriminate|].
+  destruct (strtol10 _) as [po e3]. destruct (_ || _); [discriminate|]. destruct (_ && _); discriminate.
 Qed.
